@@ -35,7 +35,7 @@ partial def showItem (h : Heap) (seen : Seen) (x : Item) : String × Seen :=
   match x with
   | .null => ("N", seen)
   | .bool b => (if b then "B1" else "B0", seen)
-  | .int n => (s!"I{n}", seen)
+  | .int n => (s!"I{n.val}", seen)
   | .bytes b => ("S" ++ showBytes b, seen)
   | .pointer p _ => (s!"P{p}", seen)
   | .interop _ => ("X", seen)
@@ -81,7 +81,7 @@ def parseArg (h : Heap) (a : String) : Option (Heap × Item) :=
   if a == "n" then some (h, .null)
   else if a == "b:0" then some (h, .bool false)
   else if a == "b:1" then some (h, .bool true)
-  else if a.startsWith "i:" then (a.drop 2).toString.toInt?.map fun n => (h, .int n)
+  else if a.startsWith "i:" then ((a.drop 2).toString.toInt?.bind checkInt).map fun n => (h, .int n)
   else if a.startsWith "s:" then (Hex.decode (a.drop 2).toString).map fun b => (h, .bytes b)
   else if a.startsWith "f:" then (Hex.decode (a.drop 2).toString).map fun b =>
     let (h, id) := h.alloc (.buf b); (h, .buffer id)
